@@ -41,6 +41,17 @@ ApUnit ==
                   JObj(<<KV("additional_properties", JNum(12)), KV("other", JNum(20))>>) >>,
       nobuild |-> <<>>]
 
+(* ---- a definition whose name is the root type's name ---- *)
+RootNameUnit ==
+  [prop |-> "C14", fam |-> "rootname", roottype |-> "RootJson_1",
+   schema |-> Obj(<<[k |-> "top", s |-> ("type" :> <<"integer">>) @@ ("minimum" :> JNum(4))],
+                    [k |-> "x", s |-> [ref |-> [k |-> "defs", n |-> "RootJson"]]]>>, <<"top">>),
+   defs |-> <<[k |-> "RootJson", s |-> Obj(<<[k |-> "inner", s |-> Str_]>>, <<"inner">>)]>>,
+   docs |-> << JObj(<<KV("top", JNum(4)), KV("x", JObj(<<KV("inner", JStr(<<"a">>))>>))>>), JObj(<<KV("top", JNum(8))>>),
+               JObj(<<KV("x", JObj(<<KV("inner", JStr(<<"a">>))>>))>>), JObj(<<KV("top", JNum(0))>>),
+               JObj(<<KV("top", JNum(4)), KV("x", JObj(<<>>))>>) >>,
+   nobuild |-> <<>>]
+
 (* ---- type names ---- *)
 TypeUnit(v) ==
   IF v = 1 THEN
@@ -105,14 +116,14 @@ CapUnit(i) ==
       opts |-> [capitalizations |-> CapLists[i]]]
 
 Pars(f) == CASE f = "siblings" -> Subsets [] f = "types" -> {1, 2} [] f = "caps" -> DOMAIN CapLists [] f = "typeset" -> NodePars
-             [] f = "apfield" -> {1}
+             [] f = "apfield" -> {1} [] f = "rootname" -> {1}
 u == CASE fam = "siblings" -> SibUnit(par) [] fam = "types" -> TypeUnit(par) [] fam = "caps" -> CapUnit(par)
-       [] fam = "typeset" -> NodeUnit(par[1], par[2]) [] fam = "apfield" -> ApUnit
+       [] fam = "typeset" -> NodeUnit(par[1], par[2]) [] fam = "apfield" -> ApUnit [] fam = "rootname" -> RootNameUnit
 Set == picked
 
 DesignOK == Set => LET unit == u IN Valid(unit.defs, unit.schema, unit.docs[1], {}, "decl", NoLim) = Acc
 AsIsOK == TRUE
-Init == fam \in {"siblings", "types", "caps", "typeset", "apfield"} /\ par = 0 /\ picked = FALSE
+Init == fam \in {"siblings", "types", "caps", "typeset", "apfield", "rootname"} /\ par = 0 /\ picked = FALSE
 Pick == ~picked /\ picked' = TRUE /\ par' \in Pars(fam) /\ UNCHANGED fam
 Next == Pick
 Spec == Init /\ [][Next]_vars
